@@ -49,14 +49,24 @@ class Rep:
             if variant % 3 == 1:
                 self.raw = {True: u64(1) + b"\x07\xAA", False: u64(2) + b"\x07\x01\x08"}
         else:
-            self.types = {"T0": ["tuple<sequence<bool>,sequence<foo>>", "variant<sequence<bool>,foo>",
-                                 "mapping<string,sequence<foo>>"][variant % 3], "T1": "bar"}
-            if variant % 3 == 0:
+            # the unknown name last, first, in the middle, and below a known container
+            names = ["tuple<sequence<bool>,sequence<foo>>", "variant<sequence<bool>,foo>", "mapping<string,sequence<foo>>",
+                     "tuple<sequence<foo>,sequence<bool>>", "variant<foo,sequence<bool>>",
+                     "tuple<uint8_t,sequence<foo>,sequence<bool>>"]
+            k = variant % len(names)
+            self.types = {"T0": names[k], "T1": "bar"}
+            if k == 0:
                 self.raw = {True: u64(1) + b"\x01" + u64(0), False: u64(1) + b"\x02" + u64(0)}
-            elif variant % 3 == 1:
+            elif k == 1:
                 self.raw = {True: u64(0) + u64(1) + b"\x01", False: u64(0) + u64(1) + b"\x02"}
-            else:
+            elif k == 2:
                 self.raw = {True: u64(0), False: u64(1) + u64(1) + b"k" + u64(0)}
+            elif k == 3:
+                self.raw = {True: u64(0) + u64(1) + b"\x01", False: u64(0) + u64(1) + b"\x02"}
+            elif k == 4:
+                self.raw = {True: u64(1) + u64(1) + b"\x01", False: u64(1) + u64(1) + b"\x02"}
+            else:
+                self.raw = {True: b"\x07" + u64(0) + u64(1) + b"\x01", False: b"\x07" + u64(0) + u64(1) + b"\x02"}
 
     def bytes_of(self, b):
         """concrete bytes of a spec bytes record"""
@@ -234,7 +244,7 @@ def run(ctx):
         ctx.log("mc AuxLife UpFront=%s: %d states, invariants %s" % (up, r.distinct, "hold" if r.violation is None else "violated (expected for this design)"))
     recs = _emit(ctx, KINDS, 5 if ctx.quick() else 6)
     for level in ("ir", "module"):
-        for variant in range(3):
+        for variant in range(6):
             G = replay.Graph(recs, base_keys=None)
             w = replay.Walker(G, lambda: TableEnv(ctx.gtirb, level, variant), [], seed=ctx.seed, observable=set(),
                               max_run=50).run()
